@@ -554,7 +554,7 @@ def recursion_witness(ck):
     for i in range(1, n):
         segs.append([i, i - 1, F(0), None, (F(0), F(i), F(0), F(1))])
     payload = {"cases": [{"segs": case_payload(segs, [], None, [], [], [])["segs"], "groups": [], "group": None,
-                          "pairs": [], "srcs": [], "ats": []}]}
+                          "pairs": [], "srcs": [], "ats": [], "only_aprox": [n - 1]}]}
     out = ck.impl("c13_impl.py", payload, timeout=600)["results"][0]
     last = out["aprox"][-1][1]
     ck.count(1, nontrivial_key="recursion-chain-1500")
@@ -592,13 +592,18 @@ def run(ck):
                       "segment lengths are rational (the generator uses axis-aligned and Pythagorean offsets)",
                       "cells are fresh: the adjacency_list / cell_graph caches are those filled by the calls of the same case",
                       "Python recursion depth is not modelled (fuel): see the known finding C13:recursion-depth"]
+    import time
+    t0 = time.time()
     ck.gate_static()
     recursion_witness(ck)
+    t1 = time.time()
     cases = gen_cases(ck)
+    t2 = time.time()
     results = []
     B = 400
     for k in range(0, len(cases), B):
         results += ck.impl("c13_impl.py", {"cases": [strip(c) for c in cases[k:k + B]]}, timeout=900)["results"]
+    t3 = time.time()
     norm = []
     for case, out in zip(cases, results):
         n = norm_impl(out, case["group"])
@@ -639,6 +644,7 @@ def run(ck):
                                                 "first_segments": jq(case["_segs"][:3])})
         ck.tally(case["_kind"])
         ck.tally("segments<=6" if len(case["_segs"]) <= 6 else "segments<=30" if len(case["_segs"]) <= 30 else "segments>30")
+    t4 = time.time()
     # ---- the kernel diffs model and implementation
     CH = 150
     total_mis = 0
@@ -664,7 +670,11 @@ def run(ck):
                 ck.disagree("Morph." + ",".join(COMPONENT.get(x, str(x)) for x in comps), strip(c), "(not printed)", "")
     ck.extra["exhaustive_tree_shapes_up_to"] = ck.n(5, 6)
     ck.extra["cases_in_kernel_diff"] = len(cases)
+    t5 = time.time()
     ck.compile_props()
+    ck.extra["phase_seconds"] = {"known-finding replay": round(t1 - t0, 1), "generate": round(t2 - t1, 1),
+                                 "implementation": round(t3 - t2, 1), "predicate": round(t4 - t3, 1),
+                                 "kernel diff": round(t5 - t4, 1), "theorems": round(time.time() - t5, 1)}
 
 
 def component_of(n, comp):
